@@ -360,6 +360,9 @@ class Recorder:
     def run(self) -> dict:
         self.net.run(self.main(), limit_ms=self.sc.get('limit_ms', 48 * 3600 * 1000))
         excs = [e for e in self.net.log if e['ev'] == 'exc']
+        if self.net.aborted:
+            self.events = self.events[:400] + [{'ev': 'exc', 't': self.events[min(len(self.events), 400) - 1]['t'] if self.events else 0,
+                                                'what': 'Runaway'}]
         return {'id': self.sc['id'], 't0': self.t0, 'events': self.events, 'excs': len(excs)}
 
 
